@@ -377,9 +377,9 @@ def r14_3(prog, rep):
 
 def run(prog, rep, tier, snap):
     rep.rule("R14.1", "unit flow ms -> s across echsd's request writer and echsx's alarm", 3)
-    r14_1(prog, rep)
+    rep.call(r14_1, prog, rep)
     rep.rule("R14.2", "writer/reader format pairing of DURATION (and date-time formatters)", 3)
-    r14_2(prog, rep)
+    rep.call(r14_2, prog, rep)
     rep.rule("R14.3", "deadline path: arm before spawn, refuse overdue, handler before alarm, handler kills spawned pid, DTEND->duration", 8)
-    r14_3(prog, rep)
+    rep.call(r14_3, prog, rep)
 READY = True
